@@ -288,7 +288,8 @@ func (s *state) walk(dot reflect.Value, node parse.Node) {
 func (s *state) walkIfOrWith(typ parse.NodeType, dot reflect.Value, pipe *parse.PipeNode, list, elseList *parse.ListNode) {
 	// defer s.pop(s.mark())
 	val := s.evalPipeline(dot, pipe)
-	truth, ok := isTrue(val)
+	// a value held in an interface-typed slot (top-level data, loop variables) is judged by its content
+	truth, ok := isTrue(indirectInterface(val))
 	if !ok {
 		s.errorf("if/with can'e use %v", val)
 	}
